@@ -130,7 +130,7 @@ class _MatchContract(Contract):
     def call(self, case):
         self.obj = self.make()
         self.addr = atom_sym("addr") if case == "atom" else ()
-        return self.fn(self.obj, self.addr)
+        return self.real(self.fn, self.obj, self.addr)
 
     def ensures(self, case, path):
         if path.outcome == "raise":
@@ -229,7 +229,7 @@ class SelectionMatch(_MatchContract):
             wrapped = core.Selection(AbsSel.fresh("r"))
             inner.match = lambda addr: (True, wrapped)  # a callee that already returns a Selection
             self.obj, self.addr, self.wrapped = core.Selection(inner), atom_sym("addr"), wrapped
-            return self.fn(self.obj, self.addr)
+            return self.real(self.fn, self.obj, self.addr)
         return super().call(case)
 
     def ensures(self, case, path):
@@ -251,7 +251,7 @@ class SelectionContains(Contract):
 
     def call(self, case):
         self.obj = core.Selection(AbsSel.fresh("s"))
-        return self.fn(self.obj, ())
+        return self.real(self.fn, self.obj, ())
 
     def ensures(self, case, path):
         yield "does_not_raise", path.outcome == "return"
@@ -267,7 +267,7 @@ class SelectionCall(Contract):
     def call(self, case):
         self.obj = core.Selection(AbsSel.fresh("s"))
         self.addr = atom_sym("addr")
-        return self.fn(self.obj, self.addr)
+        return self.real(self.fn, self.obj, self.addr)
 
     def ensures(self, case, path):
         yield "does_not_raise", path.outcome == "return"
@@ -283,7 +283,7 @@ class CoreMatch(Contract):
     def call(self, case):
         self.obj = core.Selection(AbsSel.fresh("s"))
         self.addr = atom_sym("addr")
-        return self.fn(self.addr, self.obj)
+        return self.real(self.fn, self.addr, self.obj)
 
     def ensures(self, case, path):
         yield "does_not_raise", path.outcome == "return"
@@ -310,7 +310,7 @@ class _OpContract(Contract):
 class SelOr(_OpContract):
     def call(self, case):
         self.a, self.b = core.Selection(AbsSel.fresh("s")), core.Selection(AbsSel.fresh("t"))
-        return self.fn(self.a, self.b)
+        return self.real(self.fn, self.a, self.b)
 
     def spec(self, p):
         return z3.Or(den(self.a, p), den(self.b, p))
@@ -322,7 +322,7 @@ class SelXor(_OpContract):
 
     def call(self, case):
         self.a, self.b = core.Selection(AbsSel.fresh("s")), core.Selection(AbsSel.fresh("t"))
-        return self.fn(self.a, self.b)
+        return self.real(self.fn, self.a, self.b)
 
     def spec(self, p):
         return z3.And(den(self.a, p), den(self.b, p))
@@ -332,7 +332,7 @@ class SelXor(_OpContract):
 class SelInvert(_OpContract):
     def call(self, case):
         self.a = core.Selection(AbsSel.fresh("s"))
-        return self.fn(self.a)
+        return self.real(self.fn, self.a)
 
     def spec(self, p):
         return z3.Not(den(self.a, p))
@@ -349,22 +349,22 @@ class SelCtor(Contract):
         f = self.fn
         if case == "no_args":
             self.spec = lambda p: z3.BoolVal(False)
-            return f()
+            return self.real(f)
         if case == "none":
             self.spec = lambda p: z3.BoolVal(False)
-            return f(None)
+            return self.real(f, None)
         if case == "unit":
             self.spec = lambda p: z3.BoolVal(True)
-            return f(())
+            return self.real(f, ())
         if case == "str":
             # sel() asserts isinstance(v, str): concrete strings; the atom is arbitrary but fixed
             self.spec = lambda p: z3.And(z3.Length(p) > 0, p[0] == atom("a"))
-            return f("a")
+            return self.real(f, "a")
         if case.startswith("tuple"):
             n = int(case[-1])
             t = tuple("abc"[:n])
             self.spec = lambda p, t=t: z3.PrefixOf(SymSeq.of(t).e, p)
-            return f(t)
+            return self.real(f, t)
         if case == "dict":
             s1, s2 = AbsSel.fresh("k1"), AbsSel.fresh("k2")
             d = {"a": s1, "b": s2}
@@ -375,7 +375,7 @@ class SelCtor(Contract):
                     z3.And(p[0] == atom("b"), s2.den(tail(p))),
                 ),
             )
-            return f(d)
+            return self.real(f, d)
 
     def ensures(self, case, path):
         yield "does_not_raise", path.outcome == "return"
